@@ -180,6 +180,18 @@ def sqrt(run, a):
     return SNum(r, a.np, a.fin)
 
 
+SQF = z3.Function('sq', z3.RealSort(), z3.RealSort())
+
+
+def square(run, a):
+    """x ** 2 as the named term sq(x) with the ground facts sq(x) = x*x and sq(x) >= 0: equal arguments give equal squares
+    by congruence, without nonlinear reasoning"""
+    x = a.real()
+    r = SQF(x)
+    run.assume(r == x * x, r >= 0)
+    return SNum(r, a.np, a.fin)
+
+
 POW = z3.Function('rpow', z3.RealSort(), z3.RealSort(), z3.RealSort())
 
 
@@ -201,6 +213,8 @@ def np_permutation(run, x):
     Coercion (np.asarray of a list): a list mixing str with numbers becomes all-str, so every
     number n turns into str(n) != n; otherwise elements stay ==/hash-equal."""
     sx = _sx()
+    if isinstance(x, SNum) and x.is_int:
+        return np_permutation_range(run, x)
     if isinstance(x, sx.PyList):
         x = run.make_list(x.items)
     if not isinstance(x, SList) or x.typ.e is not TKey:
@@ -232,6 +246,29 @@ def np_permutation(run, x):
                        'sigma': sig, 'sigma_inv': inv, 'line': run.cur_line})
     run.bump('np.random.permutation')
     run.trusted.add('library contract: np.random.permutation = permutation of the NumPy-coerced elements')
+    return res
+
+
+def np_permutation_range(run, nn):
+    """np.random.permutation(n) for an int n: a permutation of range(n) (values in range, pairwise distinct, onto)"""
+    n = nn.t
+    run.may_raise(n < 0, 'ValueError', 'permutation of a negative number')
+    lt = TList(TInt)
+    res = run.fresh(lt, 'iperm')
+    inv = z3.Const(fresh_name('iperm_inv'), z3.ArraySort(z3.IntSort(), z3.IntSort()))
+    i = z3.Int(fresh_name('pi'))
+    j = z3.Int(fresh_name('pj'))
+    run.pc += [res.n == n,
+               sym.forall([i], z3.Implies(z3.And(i >= 0, i < n), z3.And(res.arr[i] >= 0, res.arr[i] < n, inv[res.arr[i]] == i)),
+                          [res.arr[i]]),
+               sym.forall([j], z3.Implies(z3.And(j >= 0, j < n), z3.And(inv[j] >= 0, inv[j] < n, res.arr[inv[j]] == j)),
+                          [inv[j]]),
+               # consequences of the bijection, stated explicitly: pairwise distinct
+               sym.forall([i, j], z3.Implies(z3.And(i >= 0, i < j, j < n), res.arr[i] != res.arr[j]))]
+    run.events.append({'kind': 'draw', 'prim': 'np.random.permutation', 'arg': n, 'value': res.get(), 'inverse': inv,
+                       'line': run.cur_line})
+    run.bump('np.random.permutation')
+    run.trusted.add('library contract: np.random.permutation(n) = a permutation of range(n)')
     return res
 
 
